@@ -51,12 +51,20 @@ impl<T> Timer<T> {
 
         let id = self.next_id();
         let key = Timeout { deadline, id };
+        #[cfg(btdht_verif)]
+        crate::verif_log::record(format!(
+            "SCHED id={} in_ns={}",
+            id,
+            deadline.saturating_duration_since(Instant::now()).as_nanos()
+        ));
         self.queue.insert(key, value);
 
         key
     }
 
     pub fn cancel(&mut self, timeout: Timeout) -> bool {
+        #[cfg(btdht_verif)]
+        crate::verif_log::record(format!("CANCEL id={}", timeout.id));
         if let Some(current) = &self.current {
             if current.key() == timeout {
                 self.current = None;
@@ -65,6 +73,12 @@ impl<T> Timer<T> {
         }
 
         self.queue.remove(&timeout).is_some()
+    }
+
+    /// Verification hook: number of scheduled entries (current + queued).
+    #[cfg(btdht_verif)]
+    pub fn verif_pending(&self) -> usize {
+        self.queue.len() + usize::from(self.current.is_some())
     }
 
     fn next_id(&mut self) -> u64 {
